@@ -156,6 +156,29 @@ theorem inv_execs (cs : List Call) : ∀ (a : Api), Inv a.s → Inv (cs.foldl (f
 
 /-! scheduled interpreter -/
 
+theorem inv_itemGot (s : State) (th : Thread) (w : Nat) (evs : List Event) (hi : Inv s) : Inv (itemGot s th w evs).1 := by
+  unfold itemGot
+  simp only []
+  split
+  · exact hi
+  · exact inv_stamp s _ hi
+
+theorem inv_spollRun : ∀ (fuel : Nat) (s : State) (th : Thread) (evs : List Event), Inv s → Inv (spollRun s th evs fuel).1 := by
+  intro fuel
+  induction fuel with
+  | zero => intro s th evs hi; exact hi
+  | succ fuel ih =>
+    intro s th evs hi
+    unfold spollRun
+    repeat' split
+    all_goals (try simp only [])
+    all_goals repeat' split
+    all_goals first
+      | exact hi
+      | exact inv_itemGot _ _ _ _ (inv_acquire s _ hi)
+      | exact ih _ _ _ (inv_acquire s _ hi)
+      | exact inv_acquire s _ hi
+
 theorem inv_advance (t : Nat) : ∀ (fuel : Nat) (s : State) (th : Thread) (evs : List Event),
     Inv s → Inv (advance s t th evs fuel).1 := by
   intro fuel
@@ -165,12 +188,16 @@ theorem inv_advance (t : Nat) : ∀ (fuel : Nat) (s : State) (th : Thread) (evs 
     intro s th evs hi
     unfold advance
     repeat' split
+    all_goals (try simp only [])
+    all_goals repeat' split
     all_goals first
       | exact hi
       | exact inv_stamp s _ hi
       | exact ih _ _ _ hi
       | exact ih _ _ _ (inv_gop s _ _ hi)
       | exact ih _ _ _ (inv_acquire s _ hi)
+      | exact ih _ _ _ (inv_spollRun _ s _ _ hi)
+      | exact inv_spollRun _ s _ _ hi
 
 theorem inv_gotGuard (s : State) (t : Nat) (th : Thread) (slot : Nat) (evs : List Event) (hi : Inv s) :
     Inv (gotGuard s t th slot evs).1 := inv_advance t _ s _ _ hi
@@ -218,6 +245,13 @@ theorem inv_stepThread (s : State) (t : Nat) (th : Thread) (hi : Inv s) : Inv (s
     | exact inv_advance t _ _ _ _ (inv_release s _ hi)
     | exact inv_advance t _ _ _ _ (inv_step s .count hi)
     | exact inv_advance t _ _ _ _ (inv_step s .keys hi)
+    | exact inv_advance t _ _ _ _ (inv_step s _ hi)
+    | exact inv_advance t _ _ _ _ (inv_spollRun _ _ _ _ (inv_release s _ hi))
+    | exact inv_spollRun _ _ _ _ (inv_release s _ hi)
+    | exact inv_advance t _ _ _ _ (inv_itemGot _ _ _ _ (inv_enqueue s _ hi))
+    | exact inv_itemGot _ _ _ _ (inv_enqueue s _ hi)
+    | exact inv_advance t _ _ _ _ (inv_spollRun _ _ _ _ (inv_enqueue s _ hi))
+    | exact inv_spollRun _ _ _ _ (inv_enqueue s _ hi)
 
 /-- every schedule of every set of thread programs keeps the invariant -/
 theorem inv_schedStep (sc : Sched) (t : Nat) (hi : Inv sc.s) : Inv (sc.step t).1.s := by
